@@ -23,7 +23,8 @@ RULE = ('(a) every step of every calculation (also inside goal proofs, induction
         'SplitRegion, Substitution (u = 2x, x+1, x^2, 1/x, -x), SubstitutionInverse, IntegrationByParts (factor pairs), ElimInfInterval; '
         'limits with LHopital / ReduceLimit; derivatives of integrals with variable bounds; constructor-built negative constants printed and '
         'parsed; thorough: integrands with two operators over three ranges with the parameter-free rules and three substitutions. A step is a violation only if the two values differ by more than 1e-6 (relative) at an '
-        'admissible grid point, with quadrature error estimates below 1e-9, and the difference persists at 50 digits.')
+        'admissible grid point (Equation on every ordered pair of expressions with <= 1 operator; every recorded Equation / '
+        'Substitution / SubstitutionInverse / SplitRegion / IntegrationByParts / ElimInfInterval step also with changed parameters), with quadrature error estimates below 1e-9, and the difference persists at 50 digits.')
 ASSUMPTIONS = ['mpmath evaluation with error estimates; values that cannot be computed reliably (divergent or slowly convergent '
                'integrals and series, unknown functions, complex values) make a step undecided, never a violation']
 
@@ -61,7 +62,7 @@ def cases(tier):
     for fam, n in gen_families(tier):
         # one expression per case for the simplification family: a case ends at its first violation, and a listed known
         # finding must not hide its neighbours
-        step = 1 if fam == 'simplify' else (10 if fam == 'integral' else (5 if fam == 'integral2' else 30))
+        step = 1 if fam == 'simplify' else (10 if fam == 'integral' else (5 if fam == 'integral2' else (400 if fam == 'equation' else 30)))
         for i in range(0, n, step):
             yield ['gen', fam, i, min(i + step, n)]
 
@@ -235,6 +236,43 @@ def calcs(item):
         yield from calcs(sub)
 
 
+def rule_variants(rule):
+    """the recorded rule with one parameter changed: (tag, rule object)"""
+    from integral import rules, expr, parser
+    name = type(rule).__name__
+    out = []
+    try:
+        if name == 'Equation':
+            n = rule.new_expr
+            for tag, e2 in (('new expression + 1', n + expr.Const(1)), ('2 * new expression', expr.Const(2) * n), ('- new expression', -n)):
+                out.append((tag, rules.Equation(rule.old_expr, e2)))
+        elif name == 'Substitution':
+            v = rule.var_name
+            for g in ('x ^ 2', '1 / x', 'sin(x)', '-x', 'x - 1', '2 * x'):
+                out.append(('u = ' + g, rules.Substitution(v, parser.parse_expr(g))))
+            out.append(('u = recorded ^ 2', rules.Substitution(v, rule.var_subst ** expr.Const(2))))
+            out.append(('u = 1 / recorded', rules.Substitution(v, expr.Const(1) / rule.var_subst)))
+        elif name == 'SubstitutionInverse':
+            v = rule.var_name
+            out.append(('x = recorded ^ 2', rules.SubstitutionInverse(v, rule.var_subst ** expr.Const(2))))
+            out.append(('x = 1 / recorded', rules.SubstitutionInverse(v, expr.Const(1) / rule.var_subst)))
+            out.append(('x = - recorded', rules.SubstitutionInverse(v, -rule.var_subst)))
+        elif name == 'SplitRegion':
+            for c in ('0', '1', '-1', '1/2', '3', 'pi'):
+                out.append(('c = ' + c, rules.SplitRegion(c)))
+        elif name == 'IntegrationByParts':
+            out.append(('u and v exchanged', rules.IntegrationByParts(rule.v, rule.u)))
+            out.append(('v + 1', rules.IntegrationByParts(rule.u, rule.v + expr.Const(1))))
+            out.append(('2 * v', rules.IntegrationByParts(rule.u, expr.Const(2) * rule.v)))
+            out.append(('u ^ 2', rules.IntegrationByParts(rule.u ** expr.Const(2), rule.v)))
+        elif name == 'ElimInfInterval':
+            for a in ('0', '1', '-1', '2'):
+                out.append(('a = ' + a, rules.ElimInfInterval(parser.parse_expr(a))))
+    except Exception:
+        pass
+    return out
+
+
 def run_file(case, tier):
     import io
     import contextlib
@@ -277,6 +315,24 @@ def run_file(case, tier):
                                     'from %s the rule gives %s. %s' % (str(prev)[:300], str(new)[:300], detail))
                     if res == 'agree':
                         n_agree += 1
+                # near misses of the recorded step: the same rule with a changed parameter must either refuse or still keep the value
+                for tag, r2 in rule_variants(st.rule):
+                    cnt('recorded steps: parameter variants tried')
+                    try:
+                        with contextlib.redirect_stdout(io.StringIO()):
+                            new2 = r2.eval(prev, ctx)
+                    except RecursionError:
+                        continue
+                    except Exception:
+                        continue
+                    if new2 == prev:
+                        continue
+                    where = '%s item %d calculation %d step %d (%s with %s)' % (path, ii, ci, si, rname, tag)
+                    res, detail = compare(prev, new2, ctx, npoints, where)
+                    cnt('recorded steps: parameter variants ' + res)
+                    if res == 'differ':
+                        return viol('value-changes', '%s/%d/%d/%d %s variant %s' % (path, ii, ci, si, rname, tag),
+                                    'from %s the rule %s (%s) gives %s. %s' % (str(prev)[:300], rname, tag, str(new2)[:300], detail))
                 try:
                     ctx.extend_substs(st.rule.get_substs())
                 except Exception:
@@ -400,8 +456,14 @@ def gen_constructed(tier):
     return out
 
 
+def gen_equation_pairs(tier):
+    """every ordered pair of distinct expressions with <= 1 operator (no parameter a): Equation must refuse or keep the value"""
+    es = [e for e in gen_exprs(1) if 'a' not in e]
+    return [(e1, e2) for e1 in es for e2 in es if e1 != e2]
+
+
 def gen_families(tier):
-    return [('simplify', len(gen_exprs(bounds(tier)['generated_ops']))), ('integral', len(gen_integrals(tier))), ('limit', len(gen_limits(tier))),
+    return [('equation', len(gen_equation_pairs(tier))), ('simplify', len(gen_exprs(bounds(tier)['generated_ops']))), ('integral', len(gen_integrals(tier))), ('limit', len(gen_limits(tier))),
             ('leibniz', len(gen_leibniz(tier))), ('constructed', len(gen_constructed(tier))), ('integral2', len(gen_integrals2(tier)))]
 
 
@@ -518,6 +580,22 @@ def run_gen(case, tier):
                     bad2, _ = apply_and_compare(new, 'FullSimplify after ' + rn, rules.FullSimplify(), ctx, npoints, s)
                     if bad2:
                         return bad2
+    elif fam == 'equation':
+        ctx = context.Context()
+        ctx.load_book('base')
+        cache = {}
+        for s1, s2 in gen_equation_pairs(tier)[lo:hi]:
+            try:
+                e1 = cache.get(s1) or cache.setdefault(s1, parser.parse_expr(s1))
+                e2 = cache.get(s2) or cache.setdefault(s2, parser.parse_expr(s2))
+            except Exception:
+                continue
+            cnt('generated: equation pairs tried')
+            bad, new = apply_and_compare(e1, 'Equation', rules.Equation(None, e2), ctx, npoints, s1 + ' => ' + s2)
+            if bad:
+                return bad
+            if new is not None and new != e1:
+                n_ok += 1
     elif fam == 'integral2':
         ctx = context.Context()
         ctx.load_book('base')
